@@ -2,6 +2,7 @@ import HmfVerif.Real.Tactics
 import HmfVerif.Gen.ExprFits
 import HmfVerif.Proofs.ExprLemmas
 import Mathlib.Analysis.SpecialFunctions.Exp
+import Mathlib.Analysis.Real.Pi.Bounds
 import Mathlib.Analysis.SpecialFunctions.Gaussian.GaussianIntegral
 import HmfVerif.Proofs.AnalysisFits
 import HmfVerif.Gen.Guards
@@ -244,6 +245,104 @@ theorem PS_unimodal (opq) (ρ : String → ℝ) :
     rw [mul_assoc, mul_assoc]; exact mul_le_mul_of_nonneg_left this hc
 
 end PSAnalysis
+
+/-! ## Jenkins: closed form, bound by its amplitude (hence by the PS peak), single peak -/
+section JenkinsAnalysis
+
+/-- closed form of the generated Jenkins term -/
+theorem Jenkins_closed (opq) (ρ : String → ℝ) :
+    evalR opq ρ Gen.Fits.Jenkins_fsigma
+      = ρ "p.A" * exp (-(|ρ "p.b" + -Real.log (ρ "delta_c" / sqrt (ρ "nu2"))| ^ ρ "p.c")) := by
+  simp only [Gen.Fits.Jenkins_fsigma]
+  first
+  | (expr_unfold; done)
+  | (expr_unfold; first | rfl | expr_finish | (push_cast; expr_finish))
+
+/-- C07 (Jenkins): f never exceeds its amplitude `A`, for every σ, every b and c -/
+theorem Jenkins_le_amplitude (opq) (ρ : String → ℝ) (hA : 0 ≤ ρ "p.A") :
+    evalR opq ρ Gen.Fits.Jenkins_fsigma ≤ ρ "p.A" := by
+  rw [Jenkins_closed]
+  have h0 : 0 ≤ |ρ "p.b" + -Real.log (ρ "delta_c" / sqrt (ρ "nu2"))| ^ ρ "p.c" := Real.rpow_nonneg (abs_nonneg _) _
+  have h1 : exp (-(|ρ "p.b" + -Real.log (ρ "delta_c" / sqrt (ρ "nu2"))| ^ ρ "p.c")) ≤ 1 := by
+    rw [exp_le_one_iff]; linarith
+  calc ρ "p.A" * exp _ ≤ ρ "p.A" * 1 := mul_le_mul_of_nonneg_left h1 hA
+    _ = ρ "p.A" := mul_one _
+
+/-- the Press–Schechter peak √(2/π)·e^(−1/2) exceeds 0.39 -/
+theorem PS_peak_lower_bound : (0.39 : ℝ) < sqrt (2 / π) * exp (-(1:ℝ) / 2) := by
+  have hpi : π < 3.15 := Real.pi_lt_d2
+  have hpos : (0:ℝ) < π := Real.pi_pos
+  have h1 : (0.79 : ℝ) ≤ sqrt (2 / π) := by
+    apply Real.le_sqrt_of_sq_le
+    rw [le_div_iff₀ hpos]; nlinarith
+  have h2 : (0.5 : ℝ) ≤ exp (-(1:ℝ) / 2) := by
+    have := Real.add_one_le_exp (-(1:ℝ) / 2); linarith
+  have h3 : (0:ℝ) ≤ sqrt (2 / π) := sqrt_nonneg _
+  nlinarith
+
+/-- C07 (Jenkins, default amplitude 0.315, independent of redshift): the peak is below the Press–Schechter peak -/
+theorem Jenkins_below_PS_peak (opq) (ρ : String → ℝ) (hA : ρ "p.A" = 0.315) :
+    evalR opq ρ Gen.Fits.Jenkins_fsigma < sqrt (2 / π) * exp (-(1:ℝ) / 2) := by
+  have h := Jenkins_le_amplitude opq ρ (by rw [hA]; norm_num)
+  have := PS_peak_lower_bound
+  rw [hA] at h; linarith
+
+/-- C07 (Jenkins): single-peaked — as a function of ν² the multiplicity rises up to ν* = δ_c·e^(−b) and falls beyond it
+    (for every positive exponent c and non-negative amplitude) -/
+theorem Jenkins_unimodal (opq) (ρ : String → ℝ) (hA : 0 ≤ ρ "p.A") (hc : 0 ≤ ρ "p.c") (hd : 0 < ρ "delta_c") :
+    MonotoneOn (fun x : ℝ => evalR opq (Function.update ρ "nu2" x) Gen.Fits.Jenkins_fsigma)
+      (Set.Ioc 0 ((ρ "delta_c" * exp (-(ρ "p.b"))) ^ 2)) ∧
+    AntitoneOn (fun x : ℝ => evalR opq (Function.update ρ "nu2" x) Gen.Fits.Jenkins_fsigma)
+      (Set.Ici ((ρ "delta_c" * exp (-(ρ "p.b"))) ^ 2)) := by
+  simp only [Jenkins_closed, Function.update_self, Function.update_apply, String.reduceEq, if_false]
+  set b := ρ "p.b"
+  set d := ρ "delta_c"
+  set c := ρ "p.c"
+  -- g x = b − ln(d/√x) is increasing in x > 0 and vanishes at x* = (d e^{−b})²
+  have hstar : 0 < (d * exp (-b)) ^ 2 := by positivity
+  have hg : ∀ x : ℝ, 0 < x → b + -Real.log (d / sqrt x) = b - Real.log d + Real.log x / 2 := by
+    intro x hx
+    have hs : 0 < sqrt x := Real.sqrt_pos.mpr hx
+    rw [Real.log_div hd.ne' hs.ne', Real.log_sqrt hx.le]; ring
+  have hgstar : b - Real.log d + Real.log ((d * exp (-b)) ^ 2) / 2 = 0 := by
+    rw [Real.log_pow, Real.log_mul hd.ne' (exp_pos _).ne', Real.log_exp]; push_cast; ring
+  have key : ∀ u v : ℝ, |u| ≤ |v| → ρ "p.A" * exp (-(|v| ^ c)) ≤ ρ "p.A" * exp (-(|u| ^ c)) := by
+    intro u v huv
+    apply mul_le_mul_of_nonneg_left _ hA
+    rw [exp_le_exp, neg_le_neg_iff]
+    exact Real.rpow_le_rpow (abs_nonneg _) huv hc
+  constructor
+  · intro x hx y hy hxy
+    have hx0 : 0 < x := hx.1
+    have hy0 : 0 < y := hy.1
+    simp only
+    rw [hg x hx0, hg y hy0]
+    apply key
+    -- both arguments are ≤ 0 and g x ≤ g y
+    have hlx : Real.log x ≤ Real.log y := Real.log_le_log hx0 hxy
+    have hly : Real.log y ≤ Real.log ((d * exp (-b)) ^ 2) := Real.log_le_log hy0 hy.2
+    have hy_le : b - Real.log d + Real.log y / 2 ≤ 0 := by linarith
+    have hx_le : b - Real.log d + Real.log x / 2 ≤ 0 := by linarith
+    rw [abs_of_nonpos hy_le, abs_of_nonpos hx_le]; linarith
+  · intro x hx y hy hxy
+    have hx0 : 0 < x := lt_of_lt_of_le hstar hx
+    have hy0 : 0 < y := lt_of_lt_of_le hstar hy
+    simp only
+    rw [hg x hx0, hg y hy0]
+    apply key
+    have hlx : Real.log x ≤ Real.log y := Real.log_le_log hx0 hxy
+    have hsx : Real.log ((d * exp (-b)) ^ 2) ≤ Real.log x := Real.log_le_log hstar hx
+    have hx_ge : 0 ≤ b - Real.log d + Real.log x / 2 := by linarith
+    have hy_ge : 0 ≤ b - Real.log d + Real.log y / 2 := by linarith
+    rw [abs_of_nonneg hy_ge, abs_of_nonneg hx_ge]; linarith
+
+/-- non-vacuity of the hypotheses on the *regenerated* default coefficients: A = 0.315, c = 3.8 ≥ 0 -/
+theorem Jenkins_defaults_meet_hypotheses :
+    ((Gen.Fits.defaults.lookup "Jenkins").bind (fun l => (l.find? (·.1 == "A")).map (fun t => (t.2.1, t.2.2)))) = some (315, -3) ∧
+    ((Gen.Fits.defaults.lookup "Jenkins").bind (fun l => (l.find? (·.1 == "c")).map (fun t => decide (0 ≤ t.2.1)))) = some true := by
+  decide +kernel
+
+end JenkinsAnalysis
 
 /-- validity masks, the z = 0 branches and the positivity tests of the fits are the documented ones; no new special case in any fit -/
 theorem guards_fits : Gen.Guards.fits = Spec.Guards.fits := by decide
